@@ -1,12 +1,12 @@
 #!/bin/bash
 # tools/mkbreaker.sh Cxx : create a scratch worktree of /repo and the property text for an independent breaker agent
-id="$1"
-git -C /repo worktree add -q --detach /tmp/brk-$id HEAD && mkdir -p /tmp/brk-$id.out
-python3 - "$id" <<'PY'
+id="$1"; r="${2:-}"
+git -C /repo worktree add -q --detach /tmp/brk$r-$id HEAD && mkdir -p /tmp/brk$r-$id.out
+python3 - "$id" "$r" <<'PY'
 import json,sys
 for l in open('/verif/properties.jsonl'):
     p=json.loads(l)
     if p['id']==sys.argv[1]:
         t=f"{p['id']} — {p['title']}\n\nStatement: {p['statement']}\n\nQuantifier: {p['quantifier']['text']}\n\nAnchored code: {', '.join(p['anchors']['files'])}\n" + "\n".join('  - '+m.get('name','')+' @ '+m.get('where','') for m in p['anchors']['mechanism'])+"\n"
-        open(f"/tmp/brk-{p['id']}.out/PROPERTY.txt","w").write(t); print(t)
+        open(f"/tmp/brk{sys.argv[2]}-{p['id']}.out/PROPERTY.txt","w").write(t); print(t)
 PY
